@@ -5,6 +5,7 @@ from framework import Check, Case
 from jqlib import simple_run
 import pyref
 import valgen as V
+import goparsefloat
 
 
 def hexs(b):
@@ -116,7 +117,9 @@ class C16(Check):
             "sep.join(pieces) == s, no piece contains sep, empty sep => one piece per character, length() = byte count; upper/lower "
             "vs ASCII case mapping and receiver unchanged; floor/ceil/round on halves, negatives, +-0, integers >= 2^52, 1e300, "
             "subnormals and random bit patterns vs exact rational arithmetic; object length and pluck (present, absent, repeated keys; "
-            "result fresh, receiver unchanged); num() on numeric and non-numeric spellings vs correctly rounded conversion; every "
+            "result fresh, receiver unchanged; result, original and a pluck of the result stay independent under later plain/compound/++ "
+            "stores into any of them); num() on numeric and non-numeric spellings vs correctly rounded conversion, incl. every "
+            "combination of sign, base prefix (0x 0o 0b), digit separators, exponent letter, padding, and the inf/nan words; every "
             "method and builtin on every receiver kind with 0-3 arguments of every kind: ok or runtime error, never a crash. "
             "non-trivial = non-empty receiver and a result that differs from it")
 
@@ -269,6 +272,131 @@ class C16(Check):
             prog = "{ print num(%s) }" % src
             cases.append(Case(cid, simple_run(cid, prog, ["{}"]), {"fam": "numkind", "prog": prog, "doc": "{}", "want": want}, False))
 
+    def gen_pluck_indep(self, rng, n, cases):
+        """the plucked object and the original (and a pluck of the pluck) are independent: after every top-level store into any of
+        them (plain, compound, ++; present, absent, repeated and new keys; dot and index form) all of them are printed"""
+        ident = re.compile(r"[a-z][a-z0-9]*\Z")
+        keys_pool = [kk for kk in KEYS if kk not in ("",)]
+        for k in range(n):
+            cid = "pi%d" % k
+            o = {}
+            for _ in range(rng.randint(1, 5)):
+                o[rng.choice(keys_pool)] = V.value(rng, 1, False, 0.25) if rng.random() < 0.6 else float(rng.randint(-3, 9))
+            via = rng.choice(["$", "$.o", "lit"])
+            if via == "lit" and not all(ident.match(kk) for kk in o):
+                via = "$.o"
+            if via == "lit":
+                recv, setup, doc = "o", ["o = %s" % pyref.literal(o)], "{}"
+            elif via == "$":
+                recv, setup, doc = "$", [], json.dumps(o, ensure_ascii=False)
+            else:
+                recv, setup, doc = "$.o", [], json.dumps({"o": o}, ensure_ascii=False)
+            objs = {recv: dict(o)}
+            order = [recv]
+            prog = list(setup)
+            out = []
+
+            def pick_keys(src):
+                ks = []
+                for _ in range(rng.randint(1, 4)):
+                    r = rng.random()
+                    if r < 0.6 and objs[src]:
+                        ks.append(rng.choice(list(objs[src])))
+                    elif r < 0.85 or not ks:
+                        ks.append(rng.choice(keys_pool))
+                    else:
+                        ks.append(rng.choice(ks))
+                return ks
+
+            def do_pluck(name, src):
+                ks = pick_keys(src)
+                prog.append("%s = %s.pluck(%s)" % (name, src, ", ".join(pyref.literal(kk) for kk in ks)))
+                objs[name] = {kk: objs[src].get(kk) for kk in ks}
+                if name not in order:
+                    order.append(name)
+
+            def show(tag):
+                prog.append('print "%s", %s' % (tag, ", ".join(order)))
+                out.append(tag + " " + " ".join(pyref.pretty(objs[nm]) for nm in order))
+
+            do_pluck("p", recv)
+            show("s0")
+            for step in range(1, rng.randint(3, 8)):
+                r = rng.random()
+                if r < 0.12:
+                    do_pluck("q", rng.choice([x for x in order if x != "q"]))
+                elif r < 0.2 and "q" in order:
+                    do_pluck("p", rng.choice([recv, "q"]))       # p is bound to a fresh pluck; the old one is gone
+                else:
+                    # the interesting stores hit a key that two of the objects have in common
+                    name = rng.choice(order)
+                    shared = [kk for kk in objs[name] if sum(1 for nm in order if kk in objs[nm]) > 1]
+                    kk = rng.choice(shared) if shared and rng.random() < 0.75 else rng.choice(list(objs[name]) + keys_pool[:6])
+                    target = "%s.%s" % (name, kk) if ident.match(kk) and rng.random() < 0.8 else "%s[%s]" % (name, pyref.literal(kk))
+                    cur = objs[name].get(kk)
+                    m = rng.random()
+                    if isinstance(cur, float) and not isinstance(cur, bool) and m < 0.35:
+                        if m < 0.12:
+                            prog.append("%s++" % target)
+                            objs[name][kk] = cur + 1.0
+                        elif m < 0.2:
+                            prog.append("%s--" % target)
+                            objs[name][kk] = cur - 1.0
+                        else:
+                            d = float(rng.choice([2, 10, -1, 0.5]))
+                            prog.append("%s += %s" % (target, pyref.literal(d)))
+                            objs[name][kk] = cur + d
+                    else:
+                        v = V.value(rng, 1, False, 0.25)
+                        if v == cur and type(v) == type(cur):
+                            v = 100.0 + step
+                        prog.append("%s = %s" % (target, pyref.literal(v)))
+                        objs[name][kk] = v
+                show("s%d" % step)
+            text = "{ " + "\n ".join(prog) + " }"
+            meta = {"fam": "pluckind", "prog": text, "doc": doc, "want": "".join(l + "\n" for l in out)}
+            cases.append(Case(cid, simple_run(cid, text, [doc]), meta, True, ["pluckind"]))
+
+    def gen_numforms(self, rng, n, cases):
+        """every spelling some number parser accepts: base prefixes, digit separators, signs, the words inf/nan, padding,
+        exponent forms, hexadecimal floats -- one string per case (the model leaves 0x spellings to the oracle)"""
+        signs = ["", "", "+", "-", "+-", "--", "- ", "++"]
+        prefixes = ["", "", "0x", "0X", "0o", "0O", "0b", "0B", "0", "00", "0_", "0x_", "0X_", "0b_", "0o_", "0d", "x", "#", "0x0x", "&h", "$", "0h", "1x", "0x-", "0b-"]
+        mants = ["0", "1", "7", "10", "11", "17", "101", "ff", "FF", "1f", "dead", "1e", "e1", "777", "089", "12", "1_0", "1_000", "1__0", "_1", "1_", "f_f", "1.8", ".8", "1.",
+                 "1._8", "1_.8", "1_0.0_1", "", ".", "_", "1.8.1", "1,8", "g", "0.1", "7fffffffffffffff", "8000000000000000", "ffffffffffffffff", "1" * 64, "9" * 19]
+        exps = ["", "", "", "e1", "E1", "e+1", "e-1", "p1", "P-1", "p+4", "p0", "e", "p", "e1_0", "p1_0", "e_1", "p_1", "e1_", "p1_", "e1.5", "p1.5", "e0x1", "p0x1", "ee1", "pp1",
+                "e+", "p-", "e1e1", "p1p1", "e١", "p99999", "p-99999", "e400", "e-400"]
+        pads = [("", "")] * 8 + [(" ", ""), ("", " "), (" ", " "), ("\t", ""), ("", "\t"), ("\n", ""), ("", "\n"), ("", "\r"), ("\u00a0", ""), ("", "\u00a0"), ("", "\x00"), ("\x00", ""),
+                                 ("\ufeff", ""), ("", "f"), ("", "d"), ("", "L"), ("", "n"), ("", "i"), ("", "%"), ("", "u"), ("(", ")"), ("", "."), ("", ","), ("\v", ""), ("", "\f")]
+        words = ["inf", "Inf", "INF", "iNf", "infinity", "Infinity", "INFINITY", "InFiNiTy", "infinit", "infinityx", "infinitys", "in", "i", "infi", "inff", "+inf", "-inf", "+Inf",
+                 "-Inf", "-Infinity", "+Infinity", "+INFINITY", "--inf", "+-inf", "- inf", "inf ", " inf", "nan", "NaN", "NAN", "nAn", "Nan", "+nan", "-nan", "+NaN", "-NaN", "nan(1)",
+                 "nan()", "nanx", "na", "n", "nan ", " nan", "snan", "qnan", "NaNQ", "1inf", "infe1", "inf1", "0xinf", "0xnan", "1nan", "nane1", "∞", "-∞", "+∞", "1.#INF", "1.#QNAN",
+                 "Infinity.0", "infinity_", "in_f", "n_an", "e", "E", "p", "+e1", ".e1", "0e", "0e0", "0E-0", "-0e0", "0x0p0", "-0x0p-0", "0x1p-2", "0X1P+2", "0x1.8p1", "0x.8p1",
+                 "0x1.p1", "0x.p1", "0xp1", "0x_1p1", "0x1_0p1", "0x1p1_0", "0x1p_1", "0x1_p1", "-0x_fp0", "0x1p1024", "0x1p1023", "0x1.fffffffffffffp1023", "0x1.fffffffffffff8p1023",
+                 "0x1p-1074", "0x1p-1075", "0x1.8p-1075", "0x10", "0b11", "-0o17", "0x_ff", "0X1F", "+0b1", "0o7_7", "0b1_0", "017", "0_17", "-0x8000000000000000", "0x7fffffffffffffff",
+                 "0x8000000000000000", "0b" + "1" * 63, "0b" + "1" * 64, "0o777777777777777777777", "0o1777777777777777777777", "1_000", "1_0.5e1_0", "1__0", "_1", "1_", "1_.5", "1._5",
+                 "1e_5", "1e5_", "+_1", "-_1", "0_0", "0_x1", "1'000", "1 000", "1,000", "1.000,5", "١٢", "１２", "1e１", "½", "²", "0x1P", "0x1e1", "0x1e+1", "0b1e1", "0o1e1", "0b1p1",
+                 "0o1p1", "0b1.1", "0o1.1", "0b2", "0o8", "0xg", "0x", "0b", "0o", "0X", "-0x", "+0b", "0x.", "0b_", "1f", "1d", "1L", "1.0f", "1e1f", "1n", "1u", "1i", "1%", "$1", "#1",
+                 "1/2", "1+1", "(1)", "1-", "1+", "+1+", "- 1", "+ 1", "1 .5", "1. 5", "1 e5", "1e 5", "true", "false", "null", "one", "0xfff_", "0x__f"]
+        pool = list(words)
+        seen = set(pool)
+        tries = 0
+        while len(pool) < n and tries < 50 * n:
+            tries += 1
+            a, b = rng.choice(pads)
+            st = a + rng.choice(signs) + rng.choice(prefixes) + rng.choice(mants) + rng.choice(exps) + b
+            if st not in seen:
+                seen.add(st)
+                pool.append(st)
+        for k, st in enumerate(pool):
+            cid = "nf%d" % k
+            if k % 3 == 0 and st.isascii() and not any(c in st for c in "\"'\\") and all(32 <= ord(c) < 127 for c in st):
+                prog, doc = "{ print num(%s) }" % pyref.literal(st), "{}"
+            else:
+                prog, doc = "{ print num($.s) }", json.dumps({"s": st}, ensure_ascii=bool(k % 2))
+            meta = {"fam": "numforms", "prog": prog, "doc": doc, "s": st}
+            cases.append(Case(cid, simple_run(cid, prog, [doc]), meta, goparsefloat.parse(st) is not None, ["numforms"]))
+
     def gen_coerce(self, rng, n, cases):
         """the same strings through the operators' numeric coercion (DESIGN 3.2: ParseFloat if it succeeds, else 0)"""
         for k in range(n):
@@ -320,6 +448,8 @@ class C16(Check):
         self.gen_round(rng, 260 if q else 12000, cases)
         self.gen_pluck(rng, 160 if q else 6000, cases)
         self.gen_num(rng, 420 if q else 14000, cases)
+        self.gen_pluck_indep(rng, 200 if q else 6000, cases)
+        self.gen_numforms(rng, 900 if q else 12000, cases)
         self.gen_coerce(rng, 120 if q else 3000, cases)
         self.gen_nocrash(rng, 450 if q else 16000, cases)
         return cases
@@ -397,6 +527,19 @@ class C16(Check):
             want = "%s\n%s\n%s\n%s\n" % (pyref.pretty(want_p), pyref.pretty(o), counts, pyref.pretty(o))
             if out.decode() != want:
                 return "pluck(%r) of %s: documented %r, implementation %r" % (keys, pyref.pretty(o), want, out.decode())
+            return None
+        if fam == "pluckind":
+            if out.decode("utf-8", "replace") != m["want"]:
+                w, g = m["want"].splitlines(), out.decode("utf-8", "replace").splitlines()
+                i = next((i for i in range(max(len(w), len(g))) if i >= len(w) or i >= len(g) or w[i] != g[i]), 0)
+                return ("pluck result and original are not independent: output line %d documented %r, implementation %r"
+                        % (i + 1, w[i] if i < len(w) else "<nothing>", g[i] if i < len(g) else "<nothing>"))
+            return None
+        if fam == "numforms":
+            x = goparsefloat.parse(m["s"])
+            want = ("null" if x is None else pyref.fmt_f(x)) + "\n"
+            if out.decode() != want:
+                return "num(%r): documented %r (%s), implementation %r" % (m["s"], want, "a floating-point numeral" if x is not None else "not a floating-point numeral", out.decode())
             return None
         if fam == "num":
             x = parse_num(m["s"])
